@@ -13,7 +13,7 @@ PROP = "C20"
 LEAN_MODULES = ["Props.C20"]
 RULE = (
     "case = (register type with 0-5 user-defined properties over mixed field kinds, names chosen to sort before / "
-    "between / after the framework's own property names; a subclass and an unrelated type; a file with 0-10 "
+    "between / after the framework's own property names; a subclass, a second subclass that adds a property of its own, and an unrelated type (in four cases out of ten the views of the other types are asked for first); a file with 0-10 "
     "registers of the type interleaved with other types and free-text lines; None in any position). Observed on the "
     "real code: Register.custom_properties, list(df.columns), df.shape[0], every cell (null-aware, numbers as "
     "doubles), and - after overwriting every cell of the frame - whether the registers' data is unchanged. Judged by "
@@ -31,6 +31,9 @@ NOT_THEOREMS = ['pandas DataFrame construction / null representation / copy sema
 EXHAUSTIVE = {"quick": False, "thorough": False}
 NAME_POOL = ["alpha", "zeta", "code", "dat", "data2", "emptyy", "is_firstly", "nextt", "previouss", "custom", "custom_propertiez", "Value", "_hidden", "name"]
 PARENTS = [None, 0, None]  # K1 subclass of K0; K2 unrelated
+# class 4: K4, a second type deriving from K0 that ADDS a property of its own; its registers are registers of K0
+# too: a view of K0 shows them as rows under K0's columns
+OWN = "own4"
 
 
 def build(case):
@@ -48,7 +51,8 @@ def build(case):
     K0 = type("K0", (Register,), ns)
     K1 = type("K1", (K0,), {"__slots__": []})
     K2 = type("K2", (Register,), {"__slots__": [], "other": mkprop(0)})
-    classes = [K0, K1, K2]
+    K4 = type("K4", (K0,), {"__slots__": [], OWN: mkprop(1)})
+    classes = [K0, K1, K2, None, K4]
     data = RegisterData(DefaultRegister(data=""))
     regs = []
     for c, vals in case["regs"]:
@@ -104,9 +108,16 @@ def run_impl(case):
         import pandas as pd
 
         classes, f, regs = build(case)
-        t = classes[case["type"]] if case["type"] < 3 else type("Foreign", (object,), {})
+        t = classes[case["type"]] if case["type"] != 3 else type("Foreign", (object,), {})
+        if case.get("warm"):
+            # views (and property lists) of the OTHER types were asked for earlier in the same process:
+            # what a type's view shows does not depend on which types were viewed before
+            for i, c in enumerate(classes):
+                if c is not None and i != case["type"]:
+                    f._as_df(c)
+                    c().custom_properties
         before = [[codec.enc_val(v) for v in (r.data if isinstance(r.data, list) else [r.data])] for r in regs]
-        probe = classes[case["type"]]() if case["type"] < 3 else None
+        probe = classes[case["type"]]() if case["type"] != 3 else None
         cp = [codec.enc_str(n) for n in (probe.custom_properties if probe is not None else [])]
         df = f._as_df(t)
         cols = [codec.enc_str(str(c)) for c in df.columns]
@@ -147,16 +158,26 @@ def view_vs_registers(f, t):
     df = f._as_df(t)
     got = [[codec.enc_str(str(c)) for c in df.columns], [[enc_cell(df.iloc[i, j]) for j in range(df.shape[1])] for i in range(int(df.shape[0]))]]
     regs = list(f.data.of_type(t))
-    cols = regs[0].custom_properties if regs else []
+    # the columns are the user-defined properties of the TYPE asked for (not of whichever class the first
+    # register happens to have: registers of a derived type that adds properties are registers of the type too)
+    cols = t().custom_properties if regs and isinstance(t, type) else []
     direct = [[codec.enc_str(c) for c in cols], [[enc_cell(getattr(r, c)) for c in cols] for r in regs] if cols else []]
     return {"got": got, "direct": direct}
+
+
+def props_of(case):
+    if case["type"] in (0, 1):
+        return case["props"]
+    if case["type"] == 4:
+        return case["props"] + [[codec.enc_str(OWN), 1]]
+    return [[codec.enc_str("other"), 0]] if case["type"] == 2 else []
 
 
 def request(case, obs):
     if "harness_exc" in obs:
         obs = {"exc": "harness"}
     regs = [[c, vals] for c, vals in case["regs"]]
-    return {"op": "c20", "regs": regs, "parents": PARENTS + [None], "type": case["type"], "props": case["props"] if case["type"] in (0, 1) else ([[codec.enc_str("other"), 0]] if case["type"] == 2 else []), "obs": obs}
+    return {"op": "c20", "regs": regs, "parents": PARENTS + [None, 0], "type": case["type"], "props": props_of(case), "obs": obs}
 
 
 def judge(case, obs, resp):
@@ -190,7 +211,7 @@ def show(x):
 
 
 def nontrivial(case):
-    return len(case["props"]) > 0 and any(c in (0, 1) for c, _ in case["regs"]) and case["type"] in (0, 1)
+    return len(case["props"]) > 0 and any(c in (0, 1, 4) for c, _ in case["regs"]) and case["type"] in (0, 1, 4)
 
 
 def features(case, obs):
@@ -244,16 +265,20 @@ def random_case(rng):
     props = [[codec.enc_str(n), i] for i, n in enumerate(names)]
     regs = []
     for _ in range(rng.randrange(0, 12)):
-        c = rng.choice([0, 0, 0, 1, 2, 3])
+        c = rng.choice([0, 0, 0, 1, 2, 3, 4])
         regs.append([c, [] if c == 3 else [rand_val(rng, kinds[i]) for i in range(len(kinds))]])
-    t = rng.choice([0, 0, 0, 1, 2, 3])
+    t = rng.choice([0, 0, 0, 1, 2, 3, 4, 4])
+    if t == 4:
+        # registers of the derived type that adds a property, interleaved with its parent's and others
+        regs = [[rng.choice([4, 4, 4, 0, 2, 3]) if c != 3 else 3, vals] for c, vals in regs]
+        regs = [[c, [] if c == 3 else (vals or [rand_val(rng, kinds[i]) for i in range(len(kinds))])] for c, vals in regs]
     if rng.random() < 0.12:
         # every register of the requested type (and its subclasses) has all its values missing:
         # the view must still have one row of nulls per register
         for r in regs:
             if r[0] != 3:
                 r[1] = [None] * len(r[1])
-    return {"props": props, "regs": regs, "type": t, "route": rng.choice(["append", "append", "insertions"])}
+    return {"props": props, "regs": regs, "type": t, "route": rng.choice(["append", "append", "insertions"]), "warm": rng.random() < 0.4}
 
 
 def corpus_cases():
